@@ -314,7 +314,9 @@ class Gen:
         w = r.choice([1, 1, 1, 2, 3, 4]) if self.f['multi_assign'] else 1
         plain = {n: rg for n, rg in nets.items()}
         lhs = self.atom(plain, w, allow_const=False)
-        rhs = self.atom(plain, w, allow_const=True)
+        # now and then the two sides differ in width: the assign joins the low min(widths) bits
+        wr = r.choice([1, 2, 3, 5]) if self.f['multi_assign'] and r.random() < 0.15 else w
+        rhs = self.atom(plain, wr, allow_const=True) or self.atom(plain, w, allow_const=True)
         if lhs is None or rhs is None:
             return None
         for e in (lhs, rhs):
@@ -371,7 +373,7 @@ class Gen:
                 if kind == 'prim':
                     conns.append([None, fix_late(self.expr(usable, implied, pw), late_names, nets)])
                 else:
-                    conns.append([None, conn_expr(pw, False)])
+                    conns.append([None, conn_expr(pw, True)])      # now and then an empty position: "M m(a, , b);"
         prm = self.params(0.3 if kind != 'mod' else 0.1)
         return {'k': 'inst', 'mod': t['name'], 'name': name, 'params': prm,
                 'pstyle': 'defparam' if (prm and r.random() < 0.3) else 'hash', 'attrs': self.attrs(0.2),
